@@ -1896,6 +1896,414 @@ def bound_method_stream(ctx) -> None:
         gc_check(ctx, case, journals, wrs, sum(len(j.entries) for j in journals), f"bound-method:{label}")
 
 
+# --------------------------------------------------------------------------- round 4: flat histories, captured callables
+
+
+def stale_wrapper_records() -> bool:
+    """Probe of the real code: does a wrapper taken inside a journal still record after the journal was exited?
+    (True on /repo as it is: defect D471; False once proposed_fixes/D471.diff is applied - the model then uses
+    `callCapturedGuarded`.)"""
+    R = Real.get()
+    ir = R.ir
+    g = ir.Graph([], [], nodes=[])
+    n = ir.Node("", "Relu", [])
+    j = R.J.Journal()
+    with j:
+        m = g.append
+    before = len(j.entries)
+    m(n)
+    return len(j.entries) > before
+
+
+def proper_flat(evs: list) -> bool:
+    """The stack discipline of `WellBracketed`, written independently of the model."""
+    st = []
+    for e in evs:
+        if e["t"] == "enter":
+            if e["j"] in st:
+                return False
+            st.append(e["j"])
+        elif e["t"] == "exit":
+            if not st or st[-1] != e["j"]:
+                return False
+            st.pop()
+    return not st
+
+
+# callable -> (slot key, receiver kind); taken from an instance or from the class
+CAPTURABLE = {
+    "g.append": "Graph.append",
+    "Graph.append": "Graph.append",
+    "Node.name.fset": "Node.name.fset",
+    "Value.__init__": "Value.__init__",
+    "g.inputs.append": "_GraphIO.append",
+    "Graph.sort": "Graph.sort",
+}
+
+
+class FlatRunner:
+    """Executes a flat history on the real code: raw __enter__ / __exit__ calls (with (None, None, None) or with the
+    triple of a live exception), public-API operations, and callables taken from a class / an instance and called
+    later.  Records the control state after every item, the call trees, the entries."""
+
+    def __init__(self, R: Real, case: dict, journaled: bool = True):
+        self.R, self.case, self.journaled = R, case, journaled
+        self.env = Env(R)
+        self.reg = Registry()
+        self.tr = Tracer.get(R)
+        self.journals = [R.J.Journal() for _ in range(case["nj"])]
+        ir = R.ir
+        # receivers and arguments of the captured callables: made before the history starts, not traced
+        self.pg = ir.Graph([], [], nodes=[], name="pool")
+        self.pn = ir.Node("", "Relu", [], name="pool_node")
+        self.pv = ir.Value.__new__(ir.Value)
+        self.fresh_nodes = [ir.Node("", "Relu", [], name=f"fresh{i}") for i in range(12)]
+        self.fresh_vals = [ir.Value(name=f"fv{i}") for i in range(12)]
+        self.caps: dict = {}
+        self.states: list = []
+        self.items: list = []      # the history as the model takes it
+        self.outcomes: list = []
+        self.cap_impls: list = []
+        self.exit_swallowed = 0
+        self.after_exit: list = []  # (what, slot key, proper-so-far) of calls that made an inactive journal record
+        self.before_missed = 0
+        self.restore_after_exit: list = []
+
+    def _receiver(self, what: str):
+        return {"g.append": self.pg, "Graph.append": self.pg, "Node.name.fset": self.pn, "Value.__init__": self.pv,
+                "g.inputs.append": self.pg.inputs, "Graph.sort": self.pg}[what]
+
+    def _take(self, what: str):
+        ir = self.R.ir
+        if what == "g.append":
+            return self.pg.append
+        if what == "Graph.append":
+            f = ir.Graph.append
+            return lambda n: f(self.pg, n)
+        if what == "Node.name.fset":
+            f = ir.Node.name.fset
+            return lambda s_: f(self.pn, s_)
+        if what == "Value.__init__":
+            f = ir.Value.__init__
+            return lambda nm_: f(self.pv, name=nm_)
+        if what == "g.inputs.append":
+            return self.pg.inputs.append
+        if what == "Graph.sort":
+            f = ir.Graph.sort
+            return lambda: f(self.pg)
+        raise KeyError(what)
+
+    def _raw(self, what: str):
+        """the function object that was looked up (for decoding its wrapper layers)"""
+        ir = self.R.ir
+        if what in ("g.append", "Graph.append"):
+            return vars(ir.Graph)["append"]
+        if what == "Node.name.fset":
+            return vars(ir.Node)["name"].fset
+        if what == "Value.__init__":
+            return vars(ir.Value)["__init__"]
+        if what == "g.inputs.append":
+            return vars(self.R.gc_._GraphIO)["append"]
+        return vars(ir.Graph)["sort"]
+
+    def _arg(self, what: str, n: int):
+        if what in ("g.append", "Graph.append"):
+            return (self.fresh_nodes[n % len(self.fresh_nodes)],)
+        if what == "Node.name.fset":
+            return (f"name{n}",)
+        if what == "Value.__init__":
+            return (f"v{n}",)
+        if what == "g.inputs.append":
+            return (self.fresh_vals[n % len(self.fresh_vals)],)
+        return ()
+
+    def run(self) -> None:
+        R = self.R
+        self.tr.begin(self.reg)
+        ncall = 0
+        word: list = []
+        try:
+            for e in self.case["evs"]:
+                t = e["t"]
+                refused = False
+                if t == "enter":
+                    word.append(e)
+                    if self.journaled:
+                        try:
+                            self.journals[e["j"]].__enter__()
+                            self.tr.events.append(["enter", e["j"]])
+                        except RuntimeError:
+                            refused = True
+                    self.items.append({"t": "enter", "j": e["j"]})
+                elif t == "exit":
+                    word.append(e)
+                    if self.journaled:
+                        j = self.journals[e["j"]]
+                        had = bool(j._original_methods)
+                        try:
+                            if e.get("exc"):
+                                try:
+                                    raise UserBoom("propagating through __exit__")
+                                except UserBoom as ex:
+                                    if j.__exit__(type(ex), ex, ex.__traceback__):
+                                        self.exit_swallowed += 1
+                            else:
+                                j.__exit__(None, None, None)
+                        except KeyError:
+                            pass  # never entered: `_original_methods` is empty; nothing was changed
+                        if had:
+                            self.tr.events.append(["exit", e["j"]])
+                    self.items.append({"t": "exit", "j": e["j"], "exc": bool(e.get("exc"))})
+                elif t == "op":
+                    start = len(self.tr.events)
+                    try:
+                        res = exec_op(self.env, e["op"])
+                        oc = ["ret", self.env.canon(res)]
+                    except Exception as ex:  # the flat history goes on (the caller caught it)
+                        oc = ["raise", type(ex).__name__]
+                    self.outcomes.append(oc)
+                    steps = forest([x for x in self.tr.events[start:] if x[0] in ("start", "finish")])
+                    self.items.append({"t": "op", "steps": steps, "out": out_code(oc[0], oc[1])})
+                elif t == "capture":
+                    what = e["what"]
+                    self.caps[e["name"]] = (what, self._take(what))
+                    k = R.KEYS.index(CAPTURABLE[what])
+                    self.cap_impls.append(R.decode_impl(self._raw(what), self.journals))
+                    self.items.append({"t": "capture", "name": e["name"], "k": k, "self": self.reg.idx(self._receiver(what))})
+                elif t == "callcap":
+                    what, f = self.caps[e["name"]]
+                    n_before = [len(j.entries) for j in self.journals]
+                    act_before = [bool(j._active) for j in self.journals]
+                    start = len(self.tr.events)
+                    try:
+                        res = f(*self._arg(what, ncall))
+                        oc = ["ret", self.env.canon(res)]
+                    except Exception as ex:
+                        oc = ["raise", type(ex).__name__]
+                    ncall += 1
+                    self.outcomes.append(oc)
+                    trees = forest([x for x in self.tr.events[start:] if x[0] in ("start", "finish")])
+                    self.items.append({"t": "callcap", "name": e["name"], "step": trees[0] if trees else None})
+                    for ji, j in enumerate(self.journals):
+                        grew = len(j.entries) - n_before[ji]
+                        if grew and not act_before[ji]:
+                            self.after_exit.append((what, CAPTURABLE[what], proper_prefix(word)))
+                if self.journaled:
+                    self.states.append(_ctl_state(R, self.journals, refused))
+        finally:
+            self.events = self.tr.events
+            self.owner = dict(self.tr.owner)
+            self.tr.end()
+
+
+def proper_prefix(word: list) -> bool:
+    """the enter/exit events so far never broke the stack discipline (journals may still be open)"""
+    st = []
+    for e in word:
+        if e["t"] == "enter":
+            if e["j"] in st:
+                return False
+            st.append(e["j"])
+        else:
+            if not st or st[-1] != e["j"]:
+                return False
+            st.pop()
+    return True
+
+
+def flat_stream(ctx, cases: list, stream: str, guarded: bool) -> None:
+    """Flat histories: the model's `runFlat` / `capture` / `callCaptured` vs the real code (control state after every
+    item, what a captured callable is, outcomes, every journal's entries), and the property on the real objects:
+    a properly nested word restores classes / current journal / active flags; IR and results as without journals;
+    entries = the calls completed while entered; a journal receives nothing after it was left (D471)."""
+    R = Real.get()
+    pend = []
+    for case in cases:
+        if R.pristine_problems():
+            R.repair()
+        evs = case["evs"]
+        plain = FlatRunner(R, case, journaled=False)
+        plain.run()
+        snap_plain = snapshot(plain.env)
+        fr = FlatRunner(R, case, journaled=True)
+        fr.run()
+        snap_j = snapshot(fr.env)
+        left = R.pristine_problems()
+        if left:
+            R.repair()
+        word = [e for e in evs if e["t"] in ("enter", "exit")]
+        proper = proper_flat(word)
+        has_cap = any(e["t"] == "callcap" for e in evs)
+        nops = sum(1 for e in evs if e["t"] in ("op", "callcap"))
+        ctx.case(["flat", case], nontrivial=len(evs) > 0, stream=stream, sample=case if len(evs) <= 5 else None,
+                 flat_len=min(len(evs) // 3 * 3, 15), well_bracketed=proper, flat_ops=min(nops, 6),
+                 exc_exits=min(sum(1 for e in evs if e["t"] == "exit" and e.get("exc")), 3), captured_calls=min(sum(1 for e in evs if e["t"] == "callcap"), 3))
+        sig = stream
+        # ---- oracle
+        if fr.exit_swallowed:
+            ctx.fail(f"{sig}/exit-swallows-exception", "Journal.__exit__ returned a true value (the exception would be swallowed)", {"case": case})
+        if proper and (left or any(j._active for j in fr.journals)):
+            ctx.fail(f"{sig}/restore", "a properly nested flat enter/exit history does not restore the classes / current journal / active flags",
+                     {"case": case, "left": left[:6], "active": [bool(j._active) for j in fr.journals]})
+        if plain.outcomes != fr.outcomes or snap_plain != snap_j:
+            ctx.fail(f"{sig}/transparent", "results or IR of a flat history differ with journals", {"case": case, "plain": plain.outcomes, "journaled": fr.outcomes})
+        entries_real = [[[e.operation, fr.reg.ids.get(id(e.ref()), -1) if e.ref is not None and e.ref() is not None else -1] for e in j.entries] for j in fr.journals]
+        if proper and not has_cap:
+            for ji in range(case["nj"]):
+                exp = expected_entries(fr.events, fr.owner, ji)
+                if entries_real[ji] != exp:
+                    ctx.fail(f"{sig}/entries", "journal entries of a properly nested flat history are not exactly the instrumented calls executed while entered",
+                             {"case": case, "journal": ji, "real": entries_real[ji][:30], "expected": exp[:30]})
+        for what, key, ok_prefix in fr.after_exit:
+            ctx.count(f"captured-inside:records-after-exit:{what}")
+            if ok_prefix:
+                # D471: properly nested use; the journal that was left gains an entry for an operation executed after it
+                ctx.fail(f"captured-inside/records-after-exit:{key}",
+                         "a callable taken from the class / an instance inside a journal still records into that journal after it was exited",
+                         {"case": case, "callable": what})
+        # ---- model
+        req = {"m": "journal.flat", "fuel": FUEL, "nj": case["nj"], "guarded": guarded,
+               "owner": sorted([a, b] for a, b in fr.owner.items()), "evs": [it_ for it_ in fr.items if not (it_["t"] == "callcap" and it_["step"] is None)]}
+        impl = {"states": fr.states, "caps": fr.cap_impls, "log": [out_code(o[0], o[1]) for o in fr.outcomes],
+                "entries": entries_real, "proper": proper, "skipped_call": any(it_["t"] == "callcap" and it_["step"] is None for it_ in fr.items),
+                "stale_in_table": (not proper) and nops > 0}
+        wrs = []
+        for o in fr.reg.objs + fr.fresh_nodes + fr.fresh_vals + [fr.pg, fr.pn, fr.pv]:
+            try:
+                wrs.append(weakref.ref(o))
+            except TypeError:
+                pass
+        journals = fr.journals
+        n_entries = sum(len(j.entries) for j in journals)
+        pend.append((case, req, impl, journals, wrs, n_entries))
+        o = None  # (the loop variable would keep the last object alive)
+        del plain, fr, snap_plain, snap_j
+    answers = lean_batch([p[1] for p in pend])
+    for (case, req, impl, journals, wrs, n_entries), ans in zip(pend, answers):
+        if "err" in ans:
+            ctx.disagree("model driver error: " + str(ans["err"]), case, ans, None)
+            continue
+        if impl["skipped_call"]:
+            ctx.count("flat:captured-call-did-not-reach-the-original")
+            continue
+        if ans["wb"] != impl["proper"]:
+            ctx.disagree("WellBracketed: the model's decision != the harness' stack discipline", case, ans["wb"], impl["proper"])
+        if ans["states"] != impl["states"]:
+            k = next((i for i, (a, b) in enumerate(zip(ans["states"], impl["states"])) if a != b), -1)
+            ctx.disagree("flat history: class table / current / previous / captured / active after an item: model != implementation",
+                         {"case": case, "step": k}, ans["states"][k] if k >= 0 else None, impl["states"][k] if k >= 0 else None)
+        if ans["caps"] != impl["caps"]:
+            ctx.disagree("captured callable: wrapper layers of the function looked up at capture time: model != implementation", case, ans["caps"], impl["caps"])
+        m_log = [({"raise": exc_code("RuntimeError")} if o == {"raise": 2} else o) for o in ans["log"]]
+        if m_log != impl["log"]:
+            ctx.disagree("flat history: outcomes: model != implementation", case, m_log, impl["log"])
+        m_entries = [[[e[1], e[2].get("weak", -9)] for e in es] for es in ans["entries"]]
+        if guarded and impl["stale_in_table"]:
+            ctx.count("flat:entries-not-compared:guarded-wrappers-in-an-improperly-nested-history")
+        elif m_entries != impl["entries"]:
+            k = next((i for i, (a, b) in enumerate(zip(m_entries, impl["entries"])) if a != b), 0)
+            ctx.disagree("flat history: journal entries: model != implementation", {"case": case, "journal": k},
+                         str(m_entries[k])[:1200], str(impl["entries"][k])[:1200])
+        last = ans["states"][-1] if ans["states"] else None
+        if impl["proper"] and last is not None and (any(x["layers"] or x["base"] != i for i, x in enumerate(last["table"])) or last["current"] is not None or any(last["active"])):
+            ctx.disagree("model: a well-bracketed word does not restore (contradicts C20_restore_flat)", case, last, None)
+    for case, req, impl, journals, wrs, n_entries in pend:
+        gc_check(ctx, case, journals, wrs, n_entries, stream)
+
+
+FLAT_OPS = [
+    {"op": "value", "name": "x"},
+    {"op": "node", "op_type": "Relu", "inputs": [0], "num_outputs": 1},
+    {"op": "graph", "inputs": [0], "outputs": [], "nodes": [], "name": "g"},
+    {"op": "g_append", "g": 0, "n": 0},
+    {"op": "raise"},
+    {"op": "io_append", "g": 0, "which": "inputs", "v": 0},
+    {"op": "g_sort", "g": 0},
+]
+
+
+def flat_exhaustive(maxlen: int) -> list:
+    """all words of length <= maxlen over {enter 0, enter 1, exit 0 (normal), exit 1 (exception propagating), op}"""
+    import itertools
+
+    alphabet = [{"t": "enter", "j": 0}, {"t": "enter", "j": 1}, {"t": "exit", "j": 0}, {"t": "exit", "j": 1, "exc": True},
+                {"t": "op", "op": {"op": "value", "name": "x"}}]
+    return [{"nj": 2, "evs": list(w)} for n in range(0, maxlen + 1) for w in itertools.product(alphabet, repeat=n)]
+
+
+def flat_captured_cases() -> list:
+    """every capturable callable x taken before / inside the block x called inside / after it / inside a later journal"""
+    cases = []
+    for what in CAPTURABLE:
+        cap = {"t": "capture", "name": "c", "what": what}
+        call = {"t": "callcap", "name": "c"}
+        E, X = (lambda j: {"t": "enter", "j": j}), (lambda j, exc=False: {"t": "exit", "j": j, "exc": exc})
+        cases += [
+            {"nj": 2, "evs": [cap, E(0), call, X(0), call]},                       # taken before, called inside and after
+            {"nj": 2, "evs": [E(0), cap, call, X(0), call]},                       # taken inside, called inside and after (D471)
+            {"nj": 2, "evs": [E(0), cap, X(0, True), E(1), call, X(1)]},           # taken inside journal 0, called inside journal 1
+            {"nj": 2, "evs": [E(0), E(1), cap, X(1), call, X(0), call]},           # two layers, one / none of them still active
+            {"nj": 2, "evs": [E(0), cap, X(0), E(0), call, X(0)]},                 # the same journal object entered again
+        ]
+    return cases
+
+
+def flat_random(rng, n: int) -> list:
+    R = Real.get()
+    cases = []
+    for _ in range(n):
+        gen = Gen(R, rng)
+        evs, st = [], []
+        mode = rng.choice(["proper", "proper", "free"])
+        caps = []
+        for _i in range(rng.randint(3, 14)):
+            x = rng.random()
+            if x < 0.22:
+                free = [j for j in range(3) if j not in st] if mode == "proper" else list(range(3))
+                if free:
+                    j = rng.choice(free)
+                    st.append(j)
+                    evs.append({"t": "enter", "j": j})
+            elif x < 0.44:
+                if mode == "proper":
+                    if st:
+                        evs.append({"t": "exit", "j": st.pop(), "exc": rng.random() < 0.4})
+                else:
+                    j = rng.randrange(3)
+                    if j in st:
+                        st.remove(j)
+                    evs.append({"t": "exit", "j": j, "exc": rng.random() < 0.4})
+            elif x < 0.52:
+                name = f"c{len(caps)}"
+                caps.append(name)
+                evs.append({"t": "capture", "name": name, "what": rng.choice(list(CAPTURABLE))})
+            elif x < 0.64 and caps:
+                evs.append({"t": "callcap", "name": rng.choice(caps)})
+            else:
+                op = gen.gen_op(in_journal=bool(st))
+                try:
+                    exec_op(gen.env, op)
+                except Exception:
+                    pass
+                evs.append({"t": "op", "op": op})
+        if mode == "proper":
+            while st:
+                evs.append({"t": "exit", "j": st.pop(), "exc": rng.random() < 0.3})
+        cases.append({"nj": 3, "evs": evs})
+    return cases
+
+
+def _flat_shard(args):
+    seed, n, guarded = args
+    import random
+
+    part = Part()
+    R = Real.get()
+    load_slot_table(R)
+    flat_stream(part, flat_random(random.Random(f"C20-flat:{seed}"), n), "flat-random", guarded)
+    return part
+
+
 # --------------------------------------------------------------------------- round 3: slot table, entry, exit faults, kernel
 
 
@@ -1988,6 +2396,8 @@ def _probe_slot(R: Real, k: int, fn, with_defaults: bool, graph_arg):
     recorded: list = []
 
     class StubJournal:
+        _active = True  # read by the wrappers once proposed fix D471 (forward only when the journal is inactive) is applied
+
         def record(self, obj, operation, details=None):
             log.append("record")
             recorded.append((obj, operation, details))
@@ -2405,9 +2815,46 @@ def generator_stream(ctx) -> None:
 
 # ---- kernel histories: the model's instantiated call trees vs the observed ones
 
-K_SORT_SLOT = 26
 K_UNORDERED = (23, 26)  # Graph.remove / Graph.sort iterate a (frozen)set: their sub-calls are compared as multisets
-K_STRIP = ("via", "attrGraphs", "attrGraphsList", "badAttr", "ior")
+K_STRIP = ("badAttr",)  # a non-Attr attribute argument: type-incorrect, the (typed) kernel op cannot carry it
+K_ATTR_SLOT = 32
+
+
+def _kreal_class():
+    from harness import kernel_ops as K
+
+    class KReal(K.Real):
+        """kernel_ops.Real + what C20's instantiation needs beyond the kernel op: the value a direct call returns
+        (`_GraphIO.pop`), and the numbering of the `Attr` objects built for the calls."""
+
+        def __init__(self):
+            super().__init__(model_sort=True)
+            self.last_ret = None
+            self.attr_ids: dict[int, int] = {}
+            self.attr_objs: list = []
+
+        def apply(self, op: dict):
+            o, kind, mop = super().apply(op)
+            if o == "raised" and op["op"] == "newNode" and mop.get("op") == "newNode" and "attrs" not in mop:
+                # the attribute dict is built before the node is rejected (its `__setitem__` calls are observed):
+                # the model needs the attributes of a rejected node too (kernel_ops only adds them on success)
+                attrs = [[f"body{j}", [gi]] for j, gi in enumerate(op.get("attrGraphs", []))]
+                if op.get("attrGraphsList"):
+                    attrs.append(["branches", list(op["attrGraphsList"])])
+                if op.get("attrPlain"):
+                    attrs.append(["alpha", []])
+                if attrs:
+                    mop = {**mop, "attrs": attrs}
+            return o, kind, mop
+
+        def _apply(self, op: dict):
+            self.last_ret = None
+            if op["op"] == "io" and op["m"] == "pop":
+                self.last_ret = self._io(op).pop(op["i"])
+                return None
+            return super()._apply(op)
+
+    return KReal
 
 
 def _k_enc(real, o, R: Real):
@@ -2415,79 +2862,123 @@ def _k_enc(real, o, R: Real):
     c = R.core
     i = id(o)
     if i in real.vid:
-        return 8 * real.vid[i]
+        return 16 * real.vid[i]
     if i in real.nid:
-        return 8 * real.nid[i] + 1
+        return 16 * real.nid[i] + 1
     if i in real.gid:
-        return 8 * real.gid[i] + 2
+        return 16 * real.gid[i] + 2
     if i in real.tid:
-        return 8 * real.tid[i] + 7
+        return 16 * real.tid[i] + 7
+    if i in real.attr_ids:
+        return 16 * real.attr_ids[i] + 8
+    for gi, f in real.funcs.items():
+        if o is f:
+            return 16 * gi + 9
     for gi, g in enumerate(real.graphs):
         if o is g._inputs:
-            return 8 * gi + 3
+            return 16 * gi + 3
         if o is g._outputs:
-            return 8 * gi + 4
+            return 16 * gi + 4
         if o is g._initializers:
-            return 8 * gi + 5
+            return 16 * gi + 5
     for ni, n in enumerate(real.nodes):
         if o is n._attributes:
-            return 8 * ni + 6
+            return 16 * ni + 6
     # an object whose constructor was rejected / is running: it would have received the next index
     if isinstance(o, c.Node):
-        return 8 * len(real.nodes) + 1
+        return 16 * len(real.nodes) + 1
     if isinstance(o, c.Graph):
-        return 8 * len(real.graphs) + 2
+        return 16 * len(real.graphs) + 2
     if isinstance(o, c.Value):
-        return 8 * len(real.vals)
+        return 16 * len(real.vals)
     if isinstance(o, c.TensorBase):
-        return 8 * len(real.tensors) + 7
+        return 16 * len(real.tensors) + 7
+    if isinstance(o, R.gc_.Attributes) and isinstance(getattr(o, "_owner", None), c.Node):
+        return 16 * len(real.nodes) + 6  # the attribute dict of a node that is being built / was rejected
     return -1
+
+
+def _k_ret(out: dict, enc: dict):
+    """what an original returned, as the model prints it: None, an int, {"ref": kernel identity}"""
+    if "ret" not in out:
+        return None
+    v = out["ret"]
+    if isinstance(v, dict):
+        return {"ref": enc.get(v["ref"], -1)}
+    return v
 
 
 def _k_tree(t: dict, enc: dict) -> list:
     kids = [_k_tree(x, enc) for x in t["steps"]]
     if t["k"] in K_UNORDERED:
         kids = sorted(kids, key=json.dumps)
-    return [t["k"], 2 if t["k"] == K_SORT_SLOT else enc.get(t["self"], -1), "ret" in t["out"], kids]
+    return [t["k"], enc.get(t["self"], -1), "ret" in t["out"], kids, _k_ret(t["out"], enc)]
 
 
 def _k_model_tree(t: list) -> list:
     kids = [_k_model_tree(x) for x in t[3]]
     if t[0] in K_UNORDERED:
         kids = sorted(kids, key=json.dumps)
-    return [t[0], t[1], t[2], kids]
+    return [t[0], t[1], t[2], kids, t[4]]
+
+
+def _k_spelling(real, op: dict) -> dict:
+    """The part of the spelling that decides which instrumented functions run and that the kernel op does not carry
+    (evaluated BEFORE the call): through `Node.append` / `Node.prepend`; `|=` on the attribute dict."""
+    sp = {}
+    if op["op"] in ("insertAfter", "insertBefore") and op.get("via") == "node" and real.nodes[op["a"]].graph is real.graphs[op["g"]]:
+        sp["viaNode"] = True
+    if op["op"] == "attrEdit" and op.get("spell") == "ior" and (op.get("graphs") is not None or op.get("graph") is not None or op.get("plain")):
+        sp["noSetItem"] = True
+    return sp
 
 
 def _k_run(R: Real, ops: list, journals_at, nest: int):
     """Runs a kernel history on fresh real objects; from position `journals_at` on inside `nest` nested journals.
-    Returns per-call observed trees (canonical), outcomes, mops, snapshot, the journals and per-entry (op, enc)."""
-    from harness import kernel_ops as K
+    Returns per-call observed trees (canonical), outcomes, mops (with the spelling annotation `c20`), returned values,
+    snapshot, the journals' entries as (operation, kernel identity)."""
     import contextlib
 
-    real = K.Real()
+    real = _kreal_class()()
     reg = Registry()
     tr = Tracer.get(R)
     journals = [R.J.Journal() for _ in range(nest)]
-    trees, outcomes, mops = [], [], []
+    trees, outcomes, mops, rets = [], [], [], []
     enc_of: dict = {}
 
     def refresh():
         for idx, o in enumerate(reg.objs):
-            if enc_of.get(idx, -1) < 0 or True:
-                enc_of[idx] = _k_enc(real, o, R)
+            enc_of[idx] = _k_enc(real, o, R)
 
     def one(op):
+        sp = _k_spelling(real, op)
+        funcs_before = set(real.funcs)
         tr.begin(reg)
         try:
             o, kind, mop = real.apply(op)
         finally:
             evs = tr.events
             tr.end()
+        new_attrs = []
+        for e in evs:  # the Attr objects built for this call, in creation order
+            if e[0] == "start" and e[1] == K_ATTR_SLOT:
+                a = reg.objs[e[2]]
+                if id(a) not in real.attr_ids:
+                    real.attr_ids[id(a)] = len(real.attr_objs)
+                    real.attr_objs.append(a)
+                    new_attrs.append(real.attr_ids[id(a)])
+        if new_attrs:
+            sp["attrs"] = new_attrs
+        new_funcs = sorted(set(real.funcs) - funcs_before)
+        if new_funcs:
+            sp["fn"] = new_funcs[0]
         refresh()
         f = forest([e for e in evs if e[0] in ("start", "finish")])
         trees.append([_k_tree(t, enc_of) for t in f])
         outcomes.append(o)
-        mops.append(mop)
+        mops.append({**mop, "c20": sp} if sp else mop)
+        r = real.last_ret
+        rets.append(None if r is None or o != "ok" else {"ref": _k_enc(real, r, R)})
 
     with contextlib.ExitStack() as st:
         for i, op in enumerate(ops):
@@ -2500,24 +2991,24 @@ def _k_run(R: Real, ops: list, journals_at, nest: int):
                 st.enter_context(j)
     refresh()
     ids = {id(o): enc_of[i] for i, o in enumerate(reg.objs)}
-    entries = [[[e.operation, 2 if e.operation == "sort" else ids.get(id(e.ref()), -1)] for e in j.entries] for j in journals]
-    return trees, outcomes, mops, real.snapshot(), entries, real
+    entries = [[[e.operation, ids.get(id(e.ref()), -1)] for e in j.entries] for j in journals]
+    return trees, outcomes, mops, real.snapshot(), entries, rets
 
 
 def kernel_cases(rng, n: int, maxlen: int) -> list:
-    """C01-alphabet histories generated against the real state (kernel_ops.Gen), with the spellings the kernel op does
-    not carry (through a Function / Node.append, graph attributes) and the ops outside the kernel state removed."""
+    """C01-alphabet histories of the EXTENDED alphabet generated against the real state (kernel_ops.Gen), spellings
+    included (through a Function / Node.append / a Tape, graph attributes, every dict spelling of an attribute edit)."""
     from harness import kernel_ops as K
 
     cases = []
     for _ in range(n):
         real = K.Real()
-        gen = K.Gen(rng, real, 0.25)
+        gen = K.Gen(rng, real, 0.25, extended=True)
         ops = []
         for _i in range(rng.choice([4, 8, 12, maxlen])):
             op = gen.op()
-            if op["op"] in ("attrEdit", "newValueProd"):
-                continue
+            if op["op"] == "newValueProd":
+                continue  # Value(producer, index=...): not a kernel op of the driver
             op = {k: v for k, v in op.items() if k not in K_STRIP}
             if op["op"] == "newNode" and any(real.vals[i].is_initializer() for i in (op.get("outputs") or [])):
                 continue  # C01's known finding D12b: the code accepts an initializer as a node output, the kernel model rejects it
@@ -2530,37 +3021,45 @@ def kernel_cases(rng, n: int, maxlen: int) -> list:
 
 def kernel_stream(ctx, cases: list, stream: str = "kernel") -> None:
     """For every history: (1) the call tree of each call observed on the real code WITHOUT a journal vs the model's
-    `callTree` computed from the kernel state; (2) the same history with journals: outcomes / kernel snapshot equal to
-    the un-journaled run (oracle), entries of every journal vs the model's journaled run of the instantiated
-    configuration `kCfg`; (3) the model's own run agrees with C20_transparent_kernel (world, log, calls)."""
+    `callTreeX` computed from the kernel state and the spelling (incl. what every instrumented call returns);
+    (2) the same history with journals: outcomes / returned values / kernel snapshot equal to the un-journaled run
+    (oracle), entries of every journal vs the model's journaled run of the instantiated configuration `kCfg`;
+    (3) the model's own run agrees with C20_transparent_kernel_spelled (world, log, calls)."""
     R = Real.get()
     reqs, reals = [], []
     for case in cases:
         ops = case["ops"]
         if R.pristine_problems():
             R.repair()
-        p_trees, p_out, p_mops, p_snap, _e, _r = _k_run(R, ops, len(ops) + 1, 0)
-        j_trees, j_out, j_mops, j_snap, j_entries, _r2 = _k_run(R, ops, case["from"], case["nest"])
+        p_trees, p_out, p_mops, p_snap, _e, p_rets = _k_run(R, ops, len(ops) + 1, 0)
+        j_trees, j_out, j_mops, j_snap, j_entries, j_rets = _k_run(R, ops, case["from"], case["nest"])
         left = R.pristine_problems()
         if left:
             R.repair()
         reqs.append({"m": "journal.kernel", "fuel": 8, "nj": 3, "ops": p_mops, "from": case["from"], "nest": list(range(case["nest"]))})
-        reals.append((p_trees, p_out, j_trees, j_out, p_snap == j_snap, j_entries, left, p_mops == j_mops))
+        reals.append((p_trees, p_out, j_trees, j_out, p_snap == j_snap, j_entries, left, p_mops == j_mops, p_rets, j_rets))
     answers = lean_batch(reqs)
-    for case, (p_trees, p_out, j_trees, j_out, same_snap, j_entries, left, same_mops), ans in zip(cases, reals, answers):
+    for case, (p_trees, p_out, j_trees, j_out, same_snap, j_entries, left, same_mops, p_rets, j_rets), ans in zip(cases, reals, answers):
         ops = case["ops"]
         ctx.case(["kernel", case], nontrivial=len(ops) > 0, stream=stream, sample=case if len(ops) <= 4 else None,
                  kernel_len=min(len(ops) // 4 * 4, 32), nest=case["nest"])
-        for op, o in zip(ops, p_out):
+        for op, o, mop in zip(ops, p_out, reqs[0]["ops"] if False else [None] * len(ops)):
             label = op["op"] + ("." + op["m"] if op["op"] in ("io", "init") else "")
             ctx.count(f"kernel-op={label}:{o}")
+            if op.get("via"):
+                ctx.count(f"kernel-spelling=via-{op['via']}")
+            if op["op"] == "attrEdit":
+                ctx.count(f"kernel-spelling=attr-{op.get('spell') or ('clear' if op.get('clear') else 'setitem')}")
         sig = f"{stream}"
         # oracle: transparent on the kernel alphabet
         if p_out != j_out or not same_snap or not same_mops:
             ctx.fail(f"{sig}/transparent", "a C01-alphabet history gives other outcomes / another IR inside journals", {"case": case, "plain": p_out, "journaled": j_out})
             continue
+        if p_rets != j_rets:
+            ctx.fail(f"{sig}/transparent-result", "a call returns another value inside journals", {"case": case, "plain": p_rets, "journaled": j_rets})
+            continue
         if p_trees != j_trees:
-            ctx.fail(f"{sig}/transparent-calls", "the original functions executed differ inside journals", {"case": case})
+            ctx.fail(f"{sig}/transparent-calls", "the original functions executed (or what they return) differ inside journals", {"case": case})
             continue
         if left:
             ctx.fail(f"{sig}/restore-final", "classes not as before after the history", {"case": case, "left": left[:6]})
@@ -2578,7 +3077,13 @@ def kernel_stream(ctx, cases: list, stream: str = "kernel") -> None:
         m_log = ["ok" if "ret" in o else "raised" for o in ans["log"]]
         if m_log != j_out:
             ctx.disagree("kernel history inside journals: outcomes: model != implementation", {"case": case}, m_log, j_out)
-        m_entries = [[[e[1], 2 if e[1] == "sort" else e[2].get("weak", -9)] for e in es] for es in ans["entries"]][: case["nest"]]
+        m_rets = [o.get("ret") if "ret" in o else None for o in ans["log"]]
+        if m_rets != j_rets:
+            ctx.disagree("kernel history inside journals: values returned by the public calls: model != implementation", {"case": case}, m_rets, j_rets)
+        for r in j_rets:
+            if r is not None:
+                ctx.count("kernel-call-returns-a-value")
+        m_entries = [[[e[1], e[2].get("weak", -9)] for e in es] for es in ans["entries"]][: case["nest"]]
         r_entries = j_entries
         unordered_ops = any(op["op"] in ("remove", "sort", "replaceNodesAndValues") for op in ops)
         if unordered_ops:
@@ -2589,10 +3094,10 @@ def kernel_stream(ctx, cases: list, stream: str = "kernel") -> None:
             ctx.disagree("kernel history inside journals: entries: model != implementation", {"case": case, "journal": k},
                          str(m_entries[k])[:1200] if m_entries else None, str(r_entries[k])[:1200] if r_entries else None)
         if not (ans["world_eq"] and ans["log_eq"] and ans["calls_eq"]) or ans["exc"] is not None:
-            ctx.disagree("model: journaled kernel run differs from the kernel semantics (contradicts C20_transparent_kernel)",
+            ctx.disagree("model: journaled kernel run differs from the kernel semantics (contradicts C20_transparent_kernel_spelled)",
                          {"case": case}, [ans["world_eq"], ans["log_eq"], ans["calls_eq"], ans["exc"]], None)
         if ans["entries"] != ans["expected"]:
-            ctx.disagree("model: kernel entries != expectedFor (contradicts C20_transparent_kernel)", {"case": case}, None, None)
+            ctx.disagree("model: kernel entries != expectedFor (contradicts C20_transparent_kernel_spelled)", {"case": case}, None, None)
         if any(x["layers"] or x["base"] != k for k, x in enumerate(ans["table"])) or ans["current"] is not None:
             ctx.disagree("model: classes not restored after the kernel history", {"case": case}, None, None)
 
@@ -2693,12 +3198,22 @@ def run(ctx: Ctx) -> None:
     bound_method_stream(ctx)
     exit_fault_stream(ctx)
     generator_stream(ctx)
+    # round 4: flat histories (runFlat) and captured callables
+    guarded = not stale_wrapper_records()
+    ctx.count(f"probe:stale-wrapper-records-after-exit={not guarded}")
+    fl = ctx.pick(4, 5)
+    flat_stream(ctx, flat_exhaustive(fl), "flat-exhaustive", guarded)
+    ctx.exhaustive_scopes.append(f"all flat words of length <= {fl} over {{enter 0, enter 1, exit 0, exit 1 with an exception propagating, an operation}}")
+    flat_stream(ctx, flat_captured_cases(), "flat-captured", guarded)
+    ctx.exhaustive_scopes.append("6 capturable callables (instance / class level: method, constructor, property setter, container method) x 5 capture/call placements")
     ctx.exhaustive_scopes.append("nesting depth 0-3 x exception thrown at no level / each level x thrown by user code / by a rejected IR operation")
     # random histories, sharded
     shards = 16
     per = ctx.pick(60, 800)
     parts = pmap(_shard, [(f"{ctx.seed}:{i}", per, max(2, per // 10)) for i in range(shards)])
     for p in parts:
+        ctx.merge(p)
+    for p in pmap(_flat_shard, [(f"{ctx.seed}:{i}", ctx.pick(12, 150), guarded) for i in range(shards)]):
         ctx.merge(p)
     # C01-alphabet histories: the model's instantiated call trees vs the observed ones, inside 0-3 journals
     kper = ctx.pick(120, 1500)
@@ -2722,7 +3237,9 @@ def replay(ctx: Ctx, obj: dict) -> None:
     case = obj.get("case", obj)
     if isinstance(case, dict) and "case" in case:
         case = case["case"]
-    if "evs" in case:
+    if "evs" in case and case["evs"] and "t" in case["evs"][0]:  # a flat history (round 4)
+        flat_stream(ctx, [case], "corpus-flat", not stale_wrapper_records())
+    elif "evs" in case:
         ctl_stream(ctx, [case["evs"]], case.get("nj", 3), "corpus-ctl")
     elif "blocks" in case:
         process_cases(ctx, [case], "corpus")
